@@ -24,7 +24,7 @@ func init() {
 		Rule: "families of 2..4 constructed xxhash64-colliding 64-byte keys (equality of Sum64 asserted) plus plain keys; seeded sequences of Write/Read/Delete/Load/Store, Failover/FailoverOf.Get, AddLabels+InvalidateByLabels and Dump/Restore over them on all backends, " +
 			"judged by the collision-slot model (a key returns its own last value, or at most a miss if a partner was written since; never a partner's value, stale item or deletion); after every call that takes a key the passed buffer is overwritten " +
 			"(with a partner key / noise) and stored keys, label associations and the key of gated background builds are re-checked with fresh buffers; distinct_nontrivial = distinct (backend, family size, op-kind trace) sequences in which a partner write preceded a read/delete of the other key",
-		Required:    []string{"sequences", "collision.partner_written_then_read", "collision.partner_written_then_deleted", "collision.miss_observed", "buffer.overwritten_after_call", "bg.gated_builds", "bg.failing_builds", "collision.concurrent_rounds", "labels.invalidations", "failover.gets", "dumprestore.checked", "kind.ShardedMap", "kind.SyncMap", "kind.ShardedMapOf"},
+		Required:    []string{"sequences", "collision.partner_written_then_read", "collision.partner_written_then_deleted", "collision.miss_observed", "buffer.overwritten_after_call", "bg.gated_builds", "bg.failing_builds", "bg.partner_gets_during_build", "collision.concurrent_rounds", "labels.invalidations", "failover.gets", "dumprestore.checked", "kind.ShardedMap", "kind.SyncMap", "kind.ShardedMapOf"},
 		Assumptions: []string{"collision keys are constructed for xxhash64 with seed 0 (cespare/xxhash v2) and verified at run time"},
 		Timeout:     func(string) time.Duration { return 45 * time.Minute },
 	})
@@ -366,8 +366,9 @@ func c09Background(b *Batch, idx int) {
 	mode := 1 + rng.Intn(2)
 	failing := rng.Intn(3) == 0
 	if failing {
-		r.script = func(int, int) buildOutcome { return buildOutcome{} }
+		r.script = func(key, _ int) buildOutcome { return buildOutcome{OK: key != 0} }
 	}
+	partnerDone := false
 	b.R.Eval()
 	done := make(chan struct{})
 	go func() {
@@ -389,8 +390,33 @@ func c09Background(b *Batch, idx int) {
 		b.R.Inconcl("C09 Get did not return while its background build was gated")
 		return
 	}
+	if rng.Intn(2) == 0 {
+		// while key 0's background build is parked, a forced Get of the other (possibly colliding) key builds on its own:
+		// it neither waits for key 0's build nor receives its result
+		pd := make(chan struct{})
+		go func() { r.doGet(1, getSpec{Key: 1, SkipRead: true}); close(pd) }()
+		select {
+		case <-pd:
+		case <-time.After(10 * time.Second):
+			fail("partner-get-waits-for-foreign-build", fmt.Sprintf("Get of key 1 (%d bytes) does not return while the background build of key 0 is parked: it waits for a foreign key's build (locked keys: %d)", len(keys[1]), len(r.fo.LockedKeys())))
+			close(r.gateBG)
+			return
+		}
+		b.R.Count("bg.partner_gets_during_build", 1)
+		partnerDone = true
+		for _, e := range r.snapshotLog() {
+			if e.Kind == "get.ret" && e.Key == 1 {
+				if e.Err != "" || !strings.HasPrefix(e.Val, "k1/b/") {
+					fail("partner-get-foreign-result", fmt.Sprintf("forced Get of key 1 during the build of key 0 returned (%q,%q), want its own build result", e.Val, e.Err))
+				}
+				if other != "" {
+					other = e.Val
+				}
+			}
+		}
+	}
 	b.R.Count("bg.gated_builds", 1)
-	b.R.Nontrivial(fmt.Sprintf("bg/%s/%s/mutate=%d/collide=%v", p[0], p[1], mode, len(keys[0]) == 64))
+	b.R.Nontrivial(fmt.Sprintf("bg/%s/%s/mutate=%d/collide=%v", p[0], p[1], mode, len(keys[0]) >= 64))
 	close(r.gateBG)
 	for dl := time.Now().Add(5 * time.Second); time.Now().Before(dl); {
 		if len(r.fo.LockedKeys()) == 0 {
@@ -401,10 +427,10 @@ func c09Background(b *Batch, idx int) {
 	log := r.snapshotLog()
 	var built string
 	for _, e := range log {
-		if e.Kind == "get.ret" && e.Val != stale {
+		if e.Kind == "get.ret" && e.Key == 0 && e.Val != stale {
 			fail("bg-result", fmt.Sprintf("Get returned %q, want the stale value %q", e.Val, stale))
 		}
-		if e.Kind == "build.exit" {
+		if e.Kind == "build.exit" && e.Key == 0 {
 			built = e.Val
 		}
 	}
@@ -419,7 +445,7 @@ func c09Background(b *Batch, idx int) {
 		if len(under) != 1 || under[0] != string(keys[0]) {
 			fail("bg-failure-under-foreign-key", fmt.Sprintf("failed background build of key 0 (%q) is remembered under %q", keys[0], under))
 		}
-		if v, err := r.be.Read(bg, keys[0]); !errors.Is(err, cache.ErrExpired) && (err != nil || v != stale) {
+		if v, err := r.be.Read(bg, keys[0]); !(partnerDone && other == "") && !errors.Is(err, cache.ErrExpired) && (err != nil || v != stale) {
 			fail("bg-failure-lost-stale", fmt.Sprintf("original key reads (%v,%v) after a failed background build, want the stale value %s", v, err, stale))
 		}
 		if other != "" {
